@@ -607,11 +607,30 @@ def f_Manager_SavePeerstore : List String := [
   "}",
   "pm.peerstoreLock.Lock()",
   "defer pm.peerstoreLock.Unlock()",
-  "f, err := os.Create(pm.peerstorePath)",
+  "tmpPath := pm.peerstorePath + S",
+  "f, err := os.Create(tmpPath)",
   "if err != nil {",
   "return err",
   "}",
-  "defer f.Close()",
+  "err = writePeerstore(f, pinfos)",
+  "if err == nil {",
+  "err = f.Sync()",
+  "}",
+  "if cerr := f.Close(); err == nil {",
+  "err = cerr",
+  "}",
+  "if err == nil {",
+  "err = os.Rename(tmpPath, pm.peerstorePath)",
+  "}",
+  "if err != nil {",
+  "os.Remove(tmpPath)",
+  "return err",
+  "}",
+  "return nil"
+]
+
+/-- writePeerstore -/
+def f_writePeerstore : List String := [
   "for _, pinfo := range pinfos {",
   "if len(pinfo.Addrs) == 0 {",
   "continue",
@@ -921,5 +940,176 @@ def f_exportState : List String := [
 ]
 
 end Cmdutils
+
+namespace FsCalls
+
+/-- filesystem-relevant calls of listBackups -/
+def c_dataBackupHelper_listBackups : List String := [
+  "for{",
+  "os.Stat",
+  "if{",
+  "return",
+  "}",
+  "}",
+  "return"
+]
+
+/-- filesystem-relevant calls of makeBackup -/
+def c_dataBackupHelper_makeBackup : List String := [
+  "os.Stat",
+  "if{",
+  "return",
+  "}",
+  "os.MkdirAll",
+  "if{",
+  "return",
+  "}",
+  "dbh.listBackups",
+  "if{",
+  "os.RemoveAll",
+  "}else{",
+  "}",
+  "for{",
+  "os.Rename",
+  "if{",
+  "return",
+  "}",
+  "}",
+  "os.Rename",
+  "return"
+]
+
+/-- filesystem-relevant calls of CleanupRaft -/
+def c__CleanupRaft : List String := [
+  "latestSnapshot",
+  "if{",
+  "os.RemoveAll",
+  "return",
+  "}",
+  "dbh.makeBackup",
+  "return"
+]
+
+/-- filesystem-relevant calls of SnapshotSave -/
+def c__SnapshotSave : List String := [
+  "makeDataFolder",
+  "if{",
+  "return",
+  "}",
+  "latestSnapshot",
+  "if{",
+  "return",
+  "}",
+  "if{",
+  "CleanupRaft",
+  "}else{",
+  "}",
+  "hraft.NewFileSnapshotStoreWithLogger",
+  "if{",
+  "return",
+  "}",
+  "snapshotStore.Create",
+  "if{",
+  "return",
+  "}",
+  "p2praft.EncodeSnapshot",
+  "if{",
+  "sink.Cancel",
+  "return",
+  "}",
+  "sink.Close",
+  "if{",
+  "return",
+  "}",
+  "return"
+]
+
+/-- filesystem-relevant calls of SavePeerstore -/
+def c_Manager_SavePeerstore : List String := [
+  "if{",
+  "return",
+  "}",
+  "defer:pm.peerstoreLock.Unlock",
+  "os.Create",
+  "if{",
+  "return",
+  "}",
+  "writePeerstore",
+  "if{",
+  "f.Sync",
+  "}",
+  "f.Close",
+  "if{",
+  "os.Rename",
+  "}",
+  "if{",
+  "os.Remove",
+  "return",
+  "}",
+  "return"
+]
+
+/-- filesystem-relevant calls of writePeerstore -/
+def c__writePeerstore : List String := [
+  "for{",
+  "for{",
+  "f.Write",
+  "if{",
+  "return",
+  "}",
+  "}",
+  "}",
+  "return"
+]
+
+/-- filesystem-relevant calls of ImportState -/
+def c_raftStateManager_ImportState : List String := [
+  "raftsm.Clean",
+  "if{",
+  "return",
+  "}",
+  "if{",
+  "return",
+  "}",
+  "defer:store.Close",
+  "raftsm.GetOfflineState",
+  "if{",
+  "return",
+  "}",
+  "importState",
+  "if{",
+  "return",
+  "}",
+  "raft.SnapshotSave",
+  "return"
+]
+
+/-- filesystem-relevant calls of ImportState -/
+def c_crdtStateManager_ImportState : List String := [
+  "crdtsm.Clean",
+  "if{",
+  "return",
+  "}",
+  "crdtsm.GetStore",
+  "if{",
+  "return",
+  "}",
+  "defer:store.Close",
+  "crdtsm.GetOfflineState",
+  "if{",
+  "return",
+  "}",
+  "importState",
+  "if{",
+  "return",
+  "}",
+  "if{",
+  "return",
+  "}",
+  "batchingSt.Commit",
+  "return"
+]
+
+end FsCalls
 
 end CV.C14.Expected
